@@ -93,6 +93,7 @@ static int refValidity(const u8* p, size_t n) {
 static const char* seqName(SeqClass c) { static const char* n[] = { "valid-sequence", "surrogate-sequence", "overlong-or-out-of-range", "malformed", "truncated", "empty" }; return n[c]; }
 
 static long g_lenientAccepted = 0, g_lenientRejected = 0;
+static long g_ops = 0;   // library calls whose result was observed (counter "ops": exists in every build flavour)
 
 // run the three decoders on the byte string b[0..n) held in an exactly-sized block and compare with the reference
 static u64 checkDecoders(const u8* b, size_t n, bool stringOverloads, bool record) {
@@ -100,7 +101,7 @@ static u64 checkDecoders(const u8* b, size_t n, bool stringOverloads, bool recor
   hist.n = 0; hist.add("bytes="); addHex(hist, b, n); hist.addf(" (first sequence: %s)\n", seqName(sc));
   u64 fp = 0;
   if (n) {
-    setctx("Unicode.length"); usize l = Unicode::length((char)e.p[0]); cnt("length_calls");
+    setctx("Unicode.length"); usize l = Unicode::length((char)e.p[0]); cnt("length_calls"); ++g_ops;
     u8 b0 = b[0]; bool validLead = b0 < 0x80 || (b0 >= 0xC2 && b0 <= 0xF4); int ll = leadLen(b0);
     if (validLead && l != (usize)ll) fail("Unicode.length/valid-lead-byte/value", "length(0x%02x) = %lu, UTF-8 sequence length is %d", b0, (unsigned long)l, ll);
     if (ll == 0 && l != 0) fail("Unicode.length/continuation-or-invalid-byte/value", "length(0x%02x) = %lu for a byte that cannot start a sequence", b0, (unsigned long)l);
@@ -108,12 +109,12 @@ static u64 checkDecoders(const u8* b, size_t n, bool stringOverloads, bool recor
     fp = mix(fp, l);
   }
   setctxf("Unicode.isValid/%s", rv == 2 ? "valid-utf8" : rv == 1 ? "well-formed-not-strict" : "malformed");
-  bool iv = Unicode::isValid(e.c(), n); cnt("isvalid_calls");
+  bool iv = Unicode::isValid(e.c(), n); cnt("isvalid_calls"); ++g_ops;
   if (rv == 2 && !iv) fail("Unicode.isValid/valid-utf8/rejected", "isValid rejects a valid UTF-8 string of %lu bytes", (unsigned long)n);
   if (rv == 0 && iv) fail("Unicode.isValid/malformed/accepted", "isValid accepts a string with a bad lead byte, a missing continuation byte or a truncated sequence");
   if (rv == 1) { if (iv) ++g_lenientAccepted; else ++g_lenientRejected; }
   setctxf("Unicode.fromString/%s", seqName(sc));
-  u32 got = Unicode::fromString(e.c(), n); cnt("fromstring_calls");
+  u32 got = Unicode::fromString(e.c(), n); cnt("fromstring_calls"); ++g_ops;
   if (sc == SQ_STRICT || sc == SQ_SURROGATE) {
     if (got != cp) { char k[96]; snprintf(k, sizeof k, "Unicode.fromString/%s%s/value", seqName(sc), len < n ? "-with-trailing-bytes" : ""); fail(k, "fromString = U+%04X, the %lu-byte sequence encodes U+%04X", got, (unsigned long)len, cp); }
     cnt("fromstring_values_compared");
@@ -125,7 +126,7 @@ static u64 checkDecoders(const u8* b, size_t n, bool stringOverloads, bool recor
     setctx("Unicode.fromString(String)"); u32 got2 = Unicode::fromString(s);
     if (iv2 != iv) fail("Unicode.isValid(String)/differs-from-pointer-overload", "isValid(String) = %d, isValid(ptr,len) = %d", (int)iv2, (int)iv);
     if (got2 != got) fail("Unicode.fromString(String)/differs-from-pointer-overload", "fromString(String) = U+%04X, fromString(ptr,len) = U+%04X", got2, got);
-    cnt("string_overload_calls", 2);
+    cnt("string_overload_calls", 2); g_ops += 2;
   }
   if (record) {
     Text t; t.add("W "); addHex(t, b, n); t.addf(" %d\n", (int)iv);
@@ -153,7 +154,7 @@ static void codePoints() {
         u32 c = i < 8 ? fixedAbove[i] : (u32)(0x110000 + r.below(0xFFFFFFFFull - 0x110000));
         hist.n = 0; hist.addf("toString(0x%X)\n", c); setctx("Unicode.toString/above-U+10FFFF");
         String s = Unicode::toString(c); const char* z = s; if (z[s.length()] != 0) fail("Unicode.toString/above-U+10FFFF/terminator", "result not terminated");
-        cnt("out_of_range_code_points"); if (s.length() == 0) cnt("out_of_range_rejected");
+        cnt("out_of_range_code_points"); ++g_ops; if (s.length() == 0) cnt("out_of_range_rejected");
       }
       endCase(fp, true); continue;
     }
@@ -164,7 +165,7 @@ static void codePoints() {
       bool sur = c >= 0xD800 && c <= 0xDFFF; const char* cls = cpClass(c);
       hist.n = 0; hist.addf("code point U+%04X (%s)\n", c, cls);
       setctxf("Unicode.toString/%s", cls);
-      String s = Unicode::toString(c); size_t n = s.length(); const char* z = s; cnt("tostring_calls");
+      String s = Unicode::toString(c); size_t n = s.length(); const char* z = s; cnt("tostring_calls"); ++g_ops;
       if (z[n] != 0) fail("Unicode.toString/terminator", "toString(U+%04X): byte after the %lu result bytes is 0x%02x", c, (unsigned long)n, (u8)z[n]);
       u8 want[4]; size_t wn = refEncode(c, want);
       if (!sur) {
@@ -178,13 +179,13 @@ static void codePoints() {
       // inverse, from an exactly-sized block and through the String overload
       Exact e(z, n);
       setctxf("Unicode.fromString/%s", cls);
-      u32 back = Unicode::fromString(e.c(), n); u32 back2 = Unicode::fromString(s); cnt("fromstring_calls", 2);
+      u32 back = Unicode::fromString(e.c(), n); u32 back2 = Unicode::fromString(s); cnt("fromstring_calls", 2); g_ops += 2;
       if (back != c) { char k[80]; snprintf(k, sizeof k, "Unicode.fromString/%s/inverse", cls); fail(k, "fromString(toString(U+%04X)) = U+%04X", c, back); }
       if (back2 != c) { char k[80]; snprintf(k, sizeof k, "Unicode.fromString(String)/%s/inverse", cls); fail(k, "fromString(String toString(U+%04X)) = U+%04X", c, back2); }
       cnt("inverse_checks", 2);
-      setctxf("Unicode.length/%s", cls); usize l = Unicode::length((char)e.p[0]); cnt("length_calls");
+      setctxf("Unicode.length/%s", cls); usize l = Unicode::length((char)e.p[0]); cnt("length_calls"); ++g_ops;
       if (l != n) { char k[80]; snprintf(k, sizeof k, "Unicode.length/%s/value", cls); fail(k, "length(first byte 0x%02x of U+%04X) = %lu, encoding has %lu bytes", e.p[0], c, (unsigned long)l, (unsigned long)n); }
-      setctxf("Unicode.isValid/%s", cls); bool iv = Unicode::isValid(e.c(), n), iv2 = Unicode::isValid(s); cnt("isvalid_calls", 2);
+      setctxf("Unicode.isValid/%s", cls); bool iv = Unicode::isValid(e.c(), n), iv2 = Unicode::isValid(s); cnt("isvalid_calls", 2); g_ops += 2;
       if (!sur && (!iv || !iv2)) { char k[80]; snprintf(k, sizeof k, "Unicode.isValid/%s/rejected", cls); fail(k, "isValid rejects the encoding of U+%04X", c); }
       if (sur) { if (iv) ++g_lenientAccepted; else ++g_lenientRejected; }
       // every proper prefix: bounds (ASan) and - for isValid - rejection of the truncated sequence
@@ -194,7 +195,7 @@ static void codePoints() {
         setctx("Unicode.isValid/truncated"); bool v = Unicode::isValid(t.c(), k);
         if (k == 0 && !v) fail("Unicode.isValid/empty/rejected", "isValid(p, 0) is false");
         if (k > 0 && v) fail("Unicode.isValid/truncated/accepted", "isValid accepts the first %lu of the %lu bytes of U+%04X", (unsigned long)k, (unsigned long)n, c);
-        cnt("truncated_inputs");
+        cnt("truncated_inputs"); g_ops += 2;
       }
       // groups of 64 through append(ch, str) and the array overloads
       garr[(c - first) & 63] = c; group.add(z, n);
@@ -207,7 +208,7 @@ static void codePoints() {
         if (!ok || !ok1) fail("Unicode.append/valid-code-points/returned-false", "append reported failure for code points <= U+10FFFF");
         const String* rs[3] = { &all, &acc, &one }; const char* nm[3] = { "Unicode.toString(array)/content", "Unicode.append(array)/content", "Unicode.append(ch)/content" };
         for (int i = 0; i < 3; ++i) { const char* q = *rs[i]; if (rs[i]->length() != group.n || memcmp(q, group.c(), group.n) || q[group.n] != 0) fail(nm[i], "result differs from the concatenation of the single-character encodings for U+%04X..U+%04X", c - 63, c); }
-        cnt("array_overload_groups"); group.clear();
+        cnt("array_overload_groups"); g_ops += 66; group.clear();
       }
       fp = mix(fp, (u64)back * 8 + n);
     }
@@ -222,7 +223,7 @@ static void codePoints() {
       const char* q = all; const char* q2 = acc;
       if (all.length() != want.n || memcmp(q, want.c(), want.n) || q[want.n]) fail("Unicode.toString(array)/long/content", "result differs from the concatenated encodings (%lu vs %lu bytes)", (unsigned long)all.length(), (unsigned long)want.n);
       if (acc.length() != want.n || memcmp(q2, want.c(), want.n) || q2[want.n]) fail("Unicode.append(array)/long/content", "result differs from the concatenated encodings");
-      cnt("long_array_calls");
+      cnt("long_array_calls"); g_ops += 2;
     }
     cnt("code_points", BLK); { static const u32 reps[] = { 0, 0x7F, 0x80, 0x7FF, 0x800, 0xD7FF, 0xD800, 0xDFFF, 0xE000, 0xFFFF, 0x10000, 0x10FFFF }; for (unsigned i = 0; i < 12; ++i) if (reps[i] >= first && reps[i] < first + BLK) setItem("code_point_classes", cpClass(reps[i])); }
     if (idx % 67 == 0) sample("block U+%04X..U+%04X: toString == reference encoder, fromString inverse, length, isValid (accept whole / reject every proper prefix), array overloads in groups of 64", first, first + (u32)BLK - 1);
@@ -331,7 +332,15 @@ struct AttView {
   }
   ~AttView() { free(blk); free(orig); }
   const char* state() const { return n == 0 ? "attached-empty" : fo == FO_NUL ? "attached-terminated" : "attached-unterminated"; }
-  void attach(String& s) const { s.attach(blk + off, n); if (s.data == &s._data && s._data.ref == 0 && s._data.str == blk + off && s._data.len == n) cnt("attached_state_confirmed"); }
+  void attach(String& s) const {
+    s.attach(blk + off, n);
+#ifndef VERIF_NO_PRIVATE   // private peek (evidence only): the String really refers to the block and holds no copy. Without access to private state the fact
+                           // "attached" is what the harness did (it called attach() on a fresh String and nothing else before the conversion under test)
+    if (s.data == &s._data && s._data.ref == 0 && s._data.str == blk + off && s._data.len == n) cnt("attached_state_confirmed");
+#else
+    cnt("attached_by_harness_not_confirmed");
+#endif
+  }
   void intact(const char* api) const {
     if (memcmp(blk, orig, B)) { char k[128]; snprintf(k, sizeof k, "String.%s/%s/wrote-through-attached-memory", api, state()); fail(k, "%s() modified the block the String was attached to", api); }
   }
@@ -357,7 +366,7 @@ static void oneAttachedView(int ty, i128 val, const char* w, size_t wn, int fo) 
     if (!fitsTy(t2, val)) continue;
     String a; v.attach(a);
     setctxf("String.%s/%s", tyTo[t2], st);
-    unsigned long long got = parseMember(t2, a); cnt("int_attached_parses"); cnt(fo == FO_NUL ? "int_attached_terminated_parses" : "int_attached_unterminated_parses");
+    unsigned long long got = parseMember(t2, a); cnt("int_attached_parses"); ++g_ops; cnt(fo == FO_NUL ? "int_attached_terminated_parses" : "int_attached_unterminated_parses");
     if (got != want) { char k[128], g[32], x[32]; snprintf(k, sizeof k, "String.%s/%s/value", tyTo[t2], st); showVal(t2, got, g, sizeof g); showVal(t2, want, x, sizeof x);
       fail(k, "%s() of a String attached to the %lu characters \"%.*s\" inside a larger block (behind them: %s) = %s, the value of exactly these characters is %s", tyTo[t2], (unsigned long)wn, (int)wn, w, foName[fo], g, x); }
     v.intact(tyTo[t2]);
@@ -365,7 +374,7 @@ static void oneAttachedView(int ty, i128 val, const char* w, size_t wn, int fo) 
   }
   if (val >= -((i128)1 << 53) && val <= ((i128)1 << 53)) {   // integers of this size are exact doubles
     String a; v.attach(a); setctxf("String.toDouble/%s", st);
-    double d = a.toDouble(), wd = (double)(long long)val; cnt("double_attached_parses");
+    double d = a.toDouble(), wd = (double)(long long)val; cnt("double_attached_parses"); ++g_ops;
     if (d != wd) { char k[128]; snprintf(k, sizeof k, "String.toDouble/%s/value", st); fail(k, "toDouble() of a String attached to the %lu characters \"%.*s\" inside a larger block (behind them: %s) = %.17g, the value of exactly these characters is %.17g", (unsigned long)wn, (int)wn, w, foName[fo], d, wd); }
     v.intact("toDouble");
   }
@@ -374,7 +383,7 @@ static void oneAttachedView(int ty, i128 val, const char* w, size_t wn, int fo) 
     unsigned long long x = parseMember(ty, a); setctxf("String.%s/after-%s-of-attached-view", tyFrom[ty], tyTo[ty]); String back = fromMember(ty, x); String b; v.attach(b);
     if (!(back == b) || back.length() != wn) { char k[128]; snprintf(k, sizeof k, "String.%s(%s)/%s/round-trip", tyFrom[ty], tyTo[ty], st); const char* bz = back;
       fail(k, "%s(%s()) of a String attached to the characters \"%.*s\" inside a larger block (behind them: %s) gives \"%.40s\"", tyFrom[ty], tyTo[ty], (int)wn, w, foName[fo], bz); }
-    cnt("int_attached_round_trips"); cnt("int_attached_parses");
+    cnt("int_attached_round_trips"); cnt("int_attached_parses"); g_ops += 2;
   }
   cnt("int_attached_views"); if (fo == FO_DIGITS_NUL || fo == FO_DIGITS_END) cnt("int_attached_views_with_digits_behind"); if (fo == FO_DIGITS_END || fo == FO_SIGN_END || fo == FO_OTHER_END) cnt("int_attached_views_ending_at_block_end");
   setItem("attached_follow_classes", foName[fo]); setItem("attached_state_classes", st);
@@ -390,7 +399,7 @@ static void attachedViews(int ty, i128 val, const String& text) {
 static void attachedDouble(const char* w, size_t wn, int fo) {
   ExactZ z(w, wn); double wd = strtod(z.p, 0); AttView v(w, wn, fo, *g_ra); const char* st = v.state();
   hist.n = 0; hist.addf("double text \"%s\"\n", z.p); v.describe(hist);
-  String a; v.attach(a); setctxf("String.toDouble/%s", st); double d = a.toDouble(); cnt("double_attached_parses"); cnt("double_texts_attached");
+  String a; v.attach(a); setctxf("String.toDouble/%s", st); double d = a.toDouble(); cnt("double_attached_parses"); cnt("double_texts_attached"); ++g_ops;
   if (memcmp(&d, &wd, sizeof d)) { char k[128]; snprintf(k, sizeof k, "String.toDouble/%s/value", st); fail(k, "toDouble() of a String attached to the %lu characters \"%s\" inside a larger block (behind them: %s) = %.17g, strtod of exactly these characters is %.17g", (unsigned long)wn, z.p, foName[fo], d, wd); }
   v.intact("toDouble"); setItem("attached_follow_classes", foName[fo]);
 }
@@ -399,7 +408,7 @@ static void oneI32(int v, const char* cls) {
   hist.n = 0; hist.addf("int %s (%s)\n", w, cls);
   setctxf("String.fromInt/%s", cls); String s = String::fromInt(v); cmpText(s, w, wn, "String.fromInt", cls);
   ExactZ z(w, wn); String own(z.p, wn);
-  setctxf("String.toInt/%s", cls); int a = s.toInt(), b = String::toInt(z.p), c = own.toInt(); cnt("int_parses", 3);
+  setctxf("String.toInt/%s", cls); int a = s.toInt(), b = String::toInt(z.p), c = own.toInt(); cnt("int_parses", 3); g_ops += 4;
   if (a != v || b != v || c != v) { char k[96]; snprintf(k, sizeof k, "String.toInt/%s/value", cls); fail(k, "toInt(\"%s\") = %d / %d / %d (member on fromInt result, static, member on copy)", w, a, b, c); }
   if (g_recInts) rec("I i32 %08x %s\n", (unsigned)v, (const char*)s);
   attachedViews(TY_I32, (i128)v, s);
@@ -409,7 +418,7 @@ static void oneU32(unsigned v, const char* cls) {
   hist.n = 0; hist.addf("uint %s (%s)\n", w, cls);
   setctxf("String.fromUInt/%s", cls); String s = String::fromUInt(v); cmpText(s, w, wn, "String.fromUInt", cls);
   ExactZ z(w, wn); String own(z.p, wn);
-  setctxf("String.toUInt/%s", cls); unsigned a = s.toUInt(), b = String::toUInt(z.p), c = own.toUInt(); cnt("int_parses", 3);
+  setctxf("String.toUInt/%s", cls); unsigned a = s.toUInt(), b = String::toUInt(z.p), c = own.toUInt(); cnt("int_parses", 3); g_ops += 4;
   if (a != v || b != v || c != v) { char k[96]; snprintf(k, sizeof k, "String.toUInt/%s/value", cls); fail(k, "toUInt(\"%s\") = %u / %u / %u", w, a, b, c); }
   if (g_recInts) rec("I u32 %08x %s\n", v, (const char*)s);
   attachedViews(TY_U32, (i128)v, s);
@@ -419,7 +428,7 @@ static void oneI64(long long v, const char* cls) {
   hist.n = 0; hist.addf("int64 %s (%s)\n", w, cls);
   setctxf("String.fromInt64/%s", cls); String s = String::fromInt64((int64)v); cmpText(s, w, wn, "String.fromInt64", cls);
   ExactZ z(w, wn); String own(z.p, wn);
-  setctxf("String.toInt64/%s", cls); long long a = s.toInt64(), b = String::toInt64(z.p), c = own.toInt64(); cnt("int_parses", 3);
+  setctxf("String.toInt64/%s", cls); long long a = s.toInt64(), b = String::toInt64(z.p), c = own.toInt64(); cnt("int_parses", 3); g_ops += 4;
   if (a != v || b != v || c != v) { char k[96]; snprintf(k, sizeof k, "String.toInt64/%s/value", cls); fail(k, "toInt64(\"%s\") = %lld / %lld / %lld", w, a, b, c); }
   if (g_recInts) rec("I i64 %016llx %s\n", (unsigned long long)v, (const char*)s);
   attachedViews(TY_I64, (i128)v, s);
@@ -429,7 +438,7 @@ static void oneU64(unsigned long long v, const char* cls) {
   hist.n = 0; hist.addf("uint64 %s (%s)\n", w, cls);
   setctxf("String.fromUInt64/%s", cls); String s = String::fromUInt64((uint64)v); cmpText(s, w, wn, "String.fromUInt64", cls);
   ExactZ z(w, wn); String own(z.p, wn);
-  setctxf("String.toUInt64/%s", cls); unsigned long long a = s.toUInt64(), b = String::toUInt64(z.p), c = own.toUInt64(); cnt("int_parses", 3);
+  setctxf("String.toUInt64/%s", cls); unsigned long long a = s.toUInt64(), b = String::toUInt64(z.p), c = own.toUInt64(); cnt("int_parses", 3); g_ops += 4;
   if (a != v || b != v || c != v) { char k[96]; snprintf(k, sizeof k, "String.toUInt64/%s/value", cls); fail(k, "toUInt64(\"%s\") = %llu / %llu / %llu", w, a, b, c); }
   if (g_recInts) rec("I u64 %016llx %s\n", v, (const char*)s);
   attachedViews(TY_U64, (i128)v, s);
@@ -476,7 +485,7 @@ static void integers() {
 static void oneHex(const u8* b, size_t n, bool record) {
   Exact e(b, n); static const char UP[] = "0123456789ABCDEF";
   hist.n = 0; hist.add("fromHex bytes="); addHex(hist, b, n); hist.add("\n");
-  setctx("String.fromHex"); String s = String::fromHex((const byte*)e.p, n); cnt("hex_calls"); const char* z = s;
+  setctx("String.fromHex"); String s = String::fromHex((const byte*)e.p, n); cnt("hex_calls"); ++g_ops; const char* z = s;
   if (s.length() != 2 * n) fail("String.fromHex/length", "fromHex of %lu bytes has length %lu", (unsigned long)n, (unsigned long)s.length());
   for (size_t i = 0; i < n; ++i) if (z[2 * i] != UP[b[i] >> 4] || z[2 * i + 1] != UP[b[i] & 15]) fail("String.fromHex/digits", "byte 0x%02x at offset %lu rendered as \"%c%c\"", b[i], (unsigned long)i, z[2 * i], z[2 * i + 1]);
   if (z[2 * n] != 0) fail("String.fromHex/terminator", "result of %lu bytes input is not terminated", (unsigned long)n);
@@ -526,7 +535,7 @@ static void oneB64(const u8* b, size_t n, bool record) {
   hist.n = 0; hist.addf("fromBase64(\"%.400s\") of %lu original bytes\n", enc.c(), (unsigned long)n);
   setctx("String.fromBase64/rfc4648-encoding");
   ExactZ z(enc.c(), enc.n); String owned(z.p, enc.n); String att; att.attach(z.p, enc.n);
-  String d1 = String::fromBase64(owned), d2 = String::fromBase64(att); cnt("b64_decodes", 2);
+  String d1 = String::fromBase64(owned), d2 = String::fromBase64(att); cnt("b64_decodes", 2); g_ops += 2;
   const char* cls = n % 3 == 0 ? "no-padding" : n % 3 == 1 ? "two-pad" : "one-pad"; setItem("b64_padding_classes", cls);
   char key[96]; snprintf(key, sizeof key, "String.fromBase64/rfc4648-encoding/%s/content", cls);
   cmpBytes(d1, b, n, key, "owned input String"); cmpBytes(d2, b, n, key, "input String attached to an exactly-sized block");
@@ -571,7 +580,7 @@ static void oneB64Bytes(const u8* s, size_t n) {
   hist.n = 0; hist.add("fromBase64 input bytes="); addHex(hist, s, n); hist.add("\n");
   setctx(high ? "String.fromBase64/byte>=0x80" : canon ? "String.fromBase64/rfc4648-encoding" : "String.fromBase64/arbitrary-bytes");
   ExactZ z(s, n); String owned(z.p, n); String att; att.attach(z.p, n);
-  String d1 = String::fromBase64(owned), d2 = String::fromBase64(att); cnt("b64_decodes", 2); cnt("b64_arbitrary_inputs"); if (high) cnt("b64_inputs_with_high_bytes");
+  String d1 = String::fromBase64(owned), d2 = String::fromBase64(att); cnt("b64_decodes", 2); g_ops += 2; cnt("b64_arbitrary_inputs"); if (high) cnt("b64_inputs_with_high_bytes");
   const char* q1 = d1; const char* q2 = d2;
   if (d1.length() != d2.length() || memcmp(q1, q2, d1.length())) fail("String.fromBase64/arbitrary-bytes/nondeterministic", "owned and attached input Strings with equal content decode differently");
   if (q1[d1.length()] != 0) fail("String.fromBase64/terminator", "decoded String is not terminated");
@@ -634,6 +643,7 @@ int main(int argc, char** argv) {
   else if (!strcmp(m, "b64-rand")) b64Random();
   else if (!strcmp(m, "b64-bytes")) b64Bytes();
   else harnessBug("unknown mode %s", m);
+  cnt("ops", g_ops);
   if (g_lenientAccepted) cnt("isvalid_lenient_accepted", g_lenientAccepted);
   if (g_lenientRejected) cnt("isvalid_lenient_rejected", g_lenientRejected);
   leakCheck("String/leak");
